@@ -282,6 +282,51 @@ def handle_refuted(pid, rep, r, o):
                            + (f": {native['detail'][:200]}" if confirmed and native else ""), not confirmed))
 
 
+LEAN_LEMMAS = {"C19": "L19.lean", "C06": "L06.lean"}
+
+
+def lean_part(pid, rep: Report):
+    """Lemmas over the contracts that need induction over finite sets / real analysis: Lean 4 + Mathlib files under /verif/lemmas,
+    re-elaborated by `lean` on every run (every `theorem` is one obligation, back end lean4).  They talk about the spec functions
+    the contracts are stated in, not about /repo (a failure here is `undecided`, never a VIOLATION)."""
+    import re
+    import shutil
+    import subprocess
+    f = LEAN_LEMMAS.get(pid)
+    if f is None:
+        return
+    path = os.path.join(ROOT, "lemmas", f)
+    with open(path) as fh:
+        text = fh.read()
+    code = re.sub(r"/-.*?-/", "", text, flags=re.S)
+    code = "\n".join(l.split("--")[0] for l in code.splitlines())
+    thms = re.findall(r"^\s*theorem\s+(\S+)", code, flags=re.M)
+    banned = [w for w in ("sorry", "admit", "axiom ", "native_decide", "unsafe ") if w in code]
+    lean = shutil.which("lean")
+    t1 = time.time()
+    if lean is None:
+        rep.undecided.append(f"lemmas/{f}: lean is not on PATH")
+        return
+    try:
+        r = subprocess.run([lean, path], capture_output=True, text=True, timeout=1500, cwd=os.path.join(ROOT, "lemmas"))
+        out = (r.stdout + r.stderr).strip()
+        ok = r.returncode == 0 and "error" not in out and "sorry" not in out and not banned and thms
+    except subprocess.TimeoutExpired:
+        out, ok = "timeout", False
+    dt = time.time() - t1
+    rep.obligations += len(thms)
+    rep.lemma_obs += len(thms)
+    rep.solver_time += dt
+    if ok:
+        rep.discharged += len(thms)
+        rep.backends.setdefault("lean4-mathlib", [0, 0.0])
+        rep.backends["lean4-mathlib"][0] += len(thms)
+        rep.backends["lean4-mathlib"][1] += dt
+        rep.lean = {"file": f"lemmas/{f}", "theorems": thms, "seconds": round(dt, 1)}
+    else:
+        rep.undecided.append(f"lemmas/{f}: lean did not accept the file ({'banned: ' + ','.join(banned) if banned else out[:300]})")
+
+
 def bounded_part(pid, rep: Report, tier, seed, findings):
     try:
         mod = importlib.import_module(f"bounded.{pid}")
@@ -322,6 +367,7 @@ def emit(rep: Report, level, t0, manifest_note=""):
         "backends": {k: {"count": v[0], "seconds": round(v[1], 2)} for k, v in rep.backends.items()},
         "solver_seconds": round(rep.solver_time, 2),
         "lemma_obligations": rep.lemma_obs,
+        "lean_lemmas": getattr(rep, "lean", None),
         "undecided": rep.undecided,
         "dead_paths": rep.dead_paths,
         "covers_shown_by_native_witness": rep.cover_by_witness,
@@ -398,6 +444,7 @@ def main():
         from pyvc import replay as R
         R.ensure_repo_on_path()
         proof_part(a.pid, rep, registry, findings)
+        lean_part(a.pid, rep)
         bounded_part(a.pid, rep, a.tier, seed, findings)
         for i in registry.contracts.values():
             if a.pid in i.props:
